@@ -526,6 +526,37 @@ def gen_history(rng, n_steps=None, with_proc=False, allow_outside=False):
     return case
 
 
+def gen_source_freshness(rng):
+    """a long-lived source is asked for system X, X is changed through another connection, the source is asked for
+    ANOTHER system and only then for X again (and the other way round): every answer is the current content"""
+    sids = rng.sample(SIDS, 3)
+    key = rng.choice(KEYS)
+    vals = [gen_strict(rng) for _ in range(4)]
+    pfx = rng.choice(PREFIXES)
+    views = {"s0": {"kind": "store", "strict": True}, "s1": {"kind": "store", "strict": True},
+             "src0": {"kind": "source", "find_enabled": True, "prefix": cps(pfx), "explicit": True},
+             "srcd": {"kind": "source", "find_enabled": True, "prefix": "", "explicit": False}}
+    X, Y, Z = sids
+    src = rng.choice(["src0", "srcd"])
+    steps = [{"view": "s0", "op": "set_value", "sid": cps(X), "key": cps(key), "value": vals[0]},
+             {"view": "s0", "op": "set_value", "sid": cps(Y), "key": cps(key), "value": vals[1]},
+             {"view": src, "op": "get_data", "sid": cps(X)},
+             {"view": src, "op": "get_data", "sid": cps(Y)}]
+    change = rng.choice([{"view": "s1", "op": "set_value", "sid": cps(X), "key": cps(key), "value": vals[2]},
+                         {"view": "s1", "op": "delete_data", "sid": cps(X)},
+                         {"view": "s1", "op": "delete_value", "sid": cps(X), "key": cps(key)}])
+    steps.append(change)
+    for sid in rng.choice([[Y, X], [Z, X], [Y, Z, X, Y], [X], [Y, Y, X]]):
+        steps.append({"view": src, "op": "get_data", "sid": cps(sid)})
+    steps.append({"view": "s0", "op": "set_value", "sid": cps(Y), "key": cps(key), "value": vals[3]})
+    for sid in rng.choice([[X, Y], [Z, Y, X]]):
+        steps.append({"view": src, "op": "get_data", "sid": cps(sid)})
+    lk = (pfx + ":" + key) if (pfx and src == "src0") else key
+    steps.append({"view": src, "op": "find_system", "key": cps(lk), "value": vals[3]})
+    return {"kind": "history", "views": views, "steps": steps, "_meta": {"proc": False, "outside": False,
+                                                                         "style": "source-freshness"}}
+
+
 def gen_fn(rng, i):
     m = i % 3
     if m == 0:
